@@ -162,7 +162,7 @@ class Gen:
         cmin, cmax = 1, 1
         if fcard and not root and rng.random() < 0.3:
             cmin = rng.randint(0, 3)
-            cmax = rng.randint(max(cmin, 1), 5)
+            cmax = rng.choice([rng.randint(max(cmin, 1), 5), -1])      # -1: the open upper bound [a..*]
         ab = bool(abstract and rng.random() < 0.25)
         al = []
         if attrs:
@@ -184,7 +184,7 @@ class Gen:
             return rng.choice([0.5, 1.25, -2.75, 3.0, 100.125, 0.1, -0.001, 12345.678, 0.0, 1.0])
         if k == "str":
             return rng.choice(["x", "hello world", "ñ", "a-b", "UPPER", "with \"dq\"", "1", "true", "True", "False", "None",
-                               "null", "0", "1.0", "", "[1]"])
+                               "null", "0", "1.0", "", "[1]", "C:\\new", "a\\nb\\t", "back\\slash\\"])
         if k == "list":
             if depth > 1:
                 return [1, 2]
@@ -344,6 +344,12 @@ def nest_ctcs(ops=LOGICAL, extra_bins=()):
             yield OP(o1, OP("NOT", A), OP(o2, B, OP("NOT", C)))
     yield OP("NOT", OP("NOT", A))
     yield OP("NOT", OP("NOT", OP("NOT", A)))
+    if "AND" in bins and "IMPLIES" in bins:
+        # two implications sharing names: an equivalence written out, and three look-alikes that are not
+        yield OP("AND", OP("IMPLIES", A, B), OP("IMPLIES", B, A))
+        yield OP("AND", OP("IMPLIES", A, B), OP("IMPLIES", C, A))
+        yield OP("AND", OP("IMPLIES", A, B), OP("IMPLIES", B, C))
+        yield OP("AND", OP("IMPLIES", A, B), OP("IMPLIES", A, C))
     for o1 in bins:
         yield OP(o1, A, B)
         yield OP(o1, OP("NOT", A), B)
